@@ -50,8 +50,11 @@ structure Eng (R : Type) where
   cs : Option (Sched R)
   /-- one entry per logical step: (clip used, noise std, sigma recorded by the accountant) -/
   log : List (R × R × R)
+  /-- the bound applied to each SKIPPED physical batch of a virtual step (`signal_skip_step(True)`:
+  `clip_and_accumulate` runs with the live bound, no noise, no accounting), in order -/
+  phys : List R
 
-inductive Op where | noiseSched | clipSched | optStep
+inductive Op where | noiseSched | clipSched | optStep | physStep
 deriving DecidableEq, Repr
 
 def Eng.step {R} [Mul R] (e : Eng R) : Op → Eng R
@@ -62,6 +65,7 @@ def Eng.step {R} [Mul R] (e : Eng R) : Op → Eng R
     | some s => let (v, s') := stepS e.clip s; { e with clip := v, cs := some s' }
     | none => e
   | .optStep => { e with log := e.log ++ [(e.clip, e.sigma * e.clip, e.sigma)] }
+  | .physStep => { e with phys := e.phys ++ [e.clip] }
 
 def Eng.run {R} [Mul R] (e : Eng R) (ops : List Op) : Eng R := ops.foldl Eng.step e
 
